@@ -473,7 +473,7 @@ pub fn run(args: &Args, rec: &mut Recorder) {
     rec.rule = "evaluation = (i) one document of the C05 layout class loaded and written with every significant token required on its input line, (ii) one document in the writer's own format required to be reproduced byte for byte, (iii) one API edit (field assignment, push, remove) with the output before/after compared token-wise and line-wise outside the edited object, or the removal of one optional keyword child with every other token required to survive in order; distinct_nontrivial = distinct input texts by content hash".into();
     rec.assumptions.push("layout class as stated by the property: LF only, /begin and /end on the line of their tag, /end A2ML on its own line, no raw line breaks in strings, comments only at block-level slots, position-restricted RECORD_LAYOUT items in ascending position order".into());
     let g = Grammar::load_default();
-    let total: u64 = if args.thorough { 300_000 } else { 12_000 };
+    let total: u64 = if args.thorough { 300_000 } else { 40_000 };
     let n_edits = if args.thorough { 5 } else { 3 };
     let scratch = crate::c03::scratch_dir(args);
     run_cases(args, rec, total, crate::util::reset_budget, |rng, case, rec| {
